@@ -119,6 +119,24 @@ def run(tier):
                     check.violation({"class": "trivia-makes-program-invalid" if r.get("nerr", 1) > 0 else "trivia-changes-structure", "recipe": name,
                                      "construct": "semicolon-close-tag", "comment": any(c in v[len("<?php " + body):] for c in ("/*", "//", "#"))},
                                     {"minimal": base, "rendered": v, "ver": ver, "errors": r.get("errs")})
+    # after "->" a reserved word is a member name; white space in between keeps that, and so must a comment
+    for ver in ("7.4", "5.6"):
+        for member in ("list", "class", "print", "foreach", "x"):
+            base = "<?php $r = $o->%s; $s = $o->%s(1);" % (member, member)
+            variants = [(name, "<?php $r = $o->%s%s; $s = $o->%s%s(1);" % (tr, member, tr, member))
+                        for name in recipes if name != "none" for tr in ["".join(t.decode("latin-1") for _, t in syntax.RECIPES[name])]]
+            rs = wp.run([{"op": "cmp_tree", "src": base, "ver": ver}] + [{"op": "cmp_tree", "src": v, "ver": ver} for _, v in variants])
+            b = rs[0]
+            if b.get("panic") or b.get("hang") or b.get("crash") or b.get("nerr", 1) > 0:
+                continue
+            for (name, v), r in zip(variants, rs[1:]):
+                check.count()
+                if r.get("panic") or r.get("hang") or r.get("crash"):
+                    continue
+                if r.get("nerr", 1) > 0 or r.get("sfp") != b.get("sfp"):
+                    check.violation({"class": "trivia-makes-program-invalid" if r.get("nerr", 1) > 0 else "trivia-changes-structure", "recipe": name,
+                                     "construct": "member-after-arrow", "reserved": member != "x", "comment": any(c in v for c in ("/*", "//", "#"))},
+                                    {"minimal": base, "rendered": v, "ver": ver, "errors": r.get("errs")})
     # blanks between "<<<" and the label of a heredoc / nowdoc opener are white space too
     for ver in ("7.4", "5.6"):
         for q in ("", '"', "'"):
